@@ -25,7 +25,7 @@ UTIL_FNS = ["linear_cg", "minres", "lanczos_tridiag", "psd_safe_cholesky", "stab
             "bdsmm", "sparse_getitem", "sparse_repeat", "to_sparse", "apply_permutation", "inverse_permutation", "ciq", "dsmm",
             "f_solve", "f_inv_quad", "f_inv_quad_logdet", "f_root_decomposition", "f_root_inv_decomposition", "f_pivoted_cholesky",
             "f_add_diagonal", "f_add_jitter", "f_diagonalization", "f_sqrt_inv_matmul", "detach_", "requires_grad_", "torch_fn", "getitem_index_tensors",
-            "op_method"]
+            "op_method", "caller_probe_vectors"]
 
 
 # ----------------------------------------------------------------------------------------------------
@@ -217,6 +217,20 @@ def gen_util(g, w):
         cols = torch.tensor([rng.randrange(nn) for _ in range(k)])
         a = {"op": o, "rows": T(rows, "row index tensor", dtype="int64"), "cols": T(cols, "column index tensor", dtype="int64"),
              "how": rng.choice(["elements", "rows_slice", "cols_slice"])}
+        if bb and rng.random() < 0.6:
+            # tensor indices for the batch dimensions as well (may exceed nothing: within range of each batch dim)
+            a["batch_idx"] = [T(torch.tensor([rng.randrange(b_) for _ in range(k)]), "batch index tensor", dtype="int64") for b_ in bb]
+            a["how"] = "elements"
+    elif fn == "caller_probe_vectors":
+        o = world_op()
+        if o is None:
+            return None
+        r = w.objs[o]
+        nn, bb = r.D.shape[-1], list(r.D.shape[:-2])
+        pv = g.randn(*(bb + [nn, rng.choice([2, 5, 10])]))
+        a = {"op": o, "probes": T(pv, "caller-supplied probe vectors"), "query": rng.choice(["logdet", "inv_quad_logdet"])}
+        if a["query"] == "inv_quad_logdet":
+            a["rhs"] = T(g.randn(*(bb + [nn, 2])), "rhs")
     elif fn == "op_method":
         o = world_op(False)
         if o is None:
@@ -388,6 +402,8 @@ def _run(w, fn, a, get):
     if fn == "getitem_index_tensors":
         op = get(a["op"])
         rows, cols = get(a["rows"]), get(a["cols"])
+        if a.get("batch_idx"):
+            return [op[tuple(get(b_) for b_ in a["batch_idx"]) + (rows, cols)]]
         if a["how"] == "elements":
             return [op[..., rows, cols]]
         if a["how"] == "rows_slice":
@@ -395,6 +411,21 @@ def _run(w, fn, a, get):
         else:
             res = op[..., :, cols]
         return [res.to_dense() if isinstance(res, LinearOperator) else res]
+    if fn == "caller_probe_vectors":
+        # the caller supplies the probe vectors of the stochastic log-determinant through the documented global
+        from linear_operator import settings as S_
+
+        op = get(a["op"])
+        prev_state, prev_pv = S_.deterministic_probes._state, S_.deterministic_probes.probe_vectors
+        S_.deterministic_probes._set_state(True)
+        S_.deterministic_probes.probe_vectors = get(a["probes"])
+        try:
+            if a["query"] == "logdet":
+                return [op.logdet()]
+            return list(op.inv_quad_logdet(get(a["rhs"]), logdet=True))
+        finally:
+            S_.deterministic_probes._set_state(prev_state)
+            S_.deterministic_probes.probe_vectors = prev_pv
     if fn == "op_method":
         op = get(a["op"])
         wh = a["which"]
